@@ -304,12 +304,26 @@ def moveB (b a : Config) : Bool :=
 /-! ### One public call, and histories -/
 
 /-- what one public mutating call may do to the configuration held by a sampler with
-Hamiltonian `H` (for `move` the Hamiltonian is that of the new holder) -/
+Hamiltonian `H` -/
 inductive Step (H : Ham) (b a : Config) : Prop
   | diag (L : Nat) : b.slots.length ≤ L → DiagSweepStep H L b a → Step H b a
   | flip : SpinFlipStep b a → FlipKeepsWeight H b.slots a.slots → Step H b a
   | rvb : RvbStep H b a → FlipKeepsWeight H b.slots a.slots → Step H b a
-  | move : MoveStep b a → Legal H a → Step H b a
+  | move : MoveStep b a → Step H b a
+
+/-- every term that has positive weight under `H` has positive weight under `H'` (same bonds) -/
+def SupportLe (H H' : Ham) : Prop :=
+  ∀ b, b < H.nbonds → b < H'.nbonds ∧ H'.vars b = H.vars b ∧ H'.const b = H.const b ∧
+    ∀ i o, 0 < H.w b i o → 0 < H'.w b i o
+
+/-- a history of public calls starting from `(H, c)`: each entry is the Hamiltonian of the
+holder and the configuration after the call; the holder's Hamiltonian changes only when the
+configuration is moved to another holder (swap, conversion) whose Hamiltonian has at least the
+same support. -/
+def History (n : Nat) : Ham → Config → List (Ham × Config) → Prop
+  | _, _, [] => True
+  | H, c, (H', c') :: rest =>
+    ((H' = H ∧ Step H c c') ∨ (HamWF H' n ∧ SupportLe H H' ∧ MoveStep c c')) ∧ History n H' c' rest
 
 /-- exit-leg selection of the loop update (`try_fold` over the leg weights with the drawn
 `choice`): first leg whose cumulative weight exceeds the draw -/
